@@ -18,8 +18,9 @@ schedule that somebody supplies.  This file shows that such schedules exist and 
   well-formed instance (`SearchTree.WF`) over vertices `< nV` and a consistent vertex heuristic
   (Dijkstra: zero), each vertex is expanded at most once
   (`SearchDiscipline.reach_length_le_vertices`), so `N = nV`.
-* **(c) general A\*** (re-opening: weight factor > 1 or an inconsistent estimate): see the end of
-  the file.
+* **(c) general A\*** (re-opening: weight factor > 1 or an inconsistent estimate): proved too
+  (`terminates_general`), from strict positivity of the costs alone; `N = |walks| + 1`, the number of
+  walks of fewer than `nV` edges from the source — a termination proof, not a usable bound.
 -/
 import Compass.Proofs.SearchDiscipline
 import Compass.Proofs.ConfigProgress
@@ -677,6 +678,533 @@ theorem runVertexOriented_error_origin {I : Inst α} (hI : WF I) {source : Nat}
     · rename_i f0 _
       exact runLoop_error_origin hI sched _ (SearchTree.initState_treeInv I source f0) hra
 
+/-! ### (c) General A\*: every run is finite, re-opening allowed
+
+No hypothesis on the estimate (any weight factor; the estimate may be inconsistent, may depend on
+the state) nor on the costs beyond strict positivity (`WF`): costs and validity may depend on the
+state and on the previous edge.
+
+Why it ends.  Every label `g v` the loop ever writes is the cost of *replaying* a vertex-simple path
+from the source to `v` (`replay`: the traversals of the path's edges, each from the state and edge
+the one before it produced — a function of the edge sequence alone).  Simple, because a label only
+improves: a path that came back to a vertex it already visited would cost more than the label that
+vertex had then, hence more than the label it has now, and `tentative < existing` fails
+(`wit_verts_le`).  There are finitely many such paths (`walks`: all walks of fewer than `nV` edges
+along the incident lists), each improvement of a label takes the path that produced it out of the
+set of paths that are still cheaper than the label of their end vertex (`phi`), each improvement
+adds at most one queue entry and each turn removes one: the number of turns of any run is at most
+`|walks| + 1` (`general_bound`).  The bound is astronomically large — exponential in the number of
+vertices — and is a termination proof, not a complexity bound: for A\* with an inconsistent estimate
+the iteration limit of the termination model (C10) remains the only practical bound. -/
+
+section General
+
+/-- the vertex a reversed edge path (head = last edge) ends in -/
+def endV (I : Inst α) (source : Nat) : List Nat → Nat
+  | [] => source
+  | e :: _ => I.keyV e
+
+/-- the vertices a reversed path visits, the source included -/
+def verts (I : Inst α) (source : Nat) : List Nat → List Nat
+  | [] => [source]
+  | e :: rest => I.keyV e :: verts I source rest
+
+/-- replay of a reversed path from the initial state: (summed cost, last edge, state); `none` when
+a traversal fails -/
+def replay (I : Inst α) : List Nat → Option (α × Option Nat × List α)
+  | [] => some (0, none, I.init)
+  | e :: rest =>
+    match replay I rest with
+    | none => none
+    | some (x, le, st) =>
+      match I.trav e le st with
+      | .ok (ac, tc, st') => some (x + (ac + tc), some e, st')
+      | .error _ => none
+
+/-- `p` is a witness relative to the labels `g`: it follows the incident lists, visits no vertex
+twice, and every proper prefix costs at least the label of the vertex it ends in -/
+def Wit (I : Inst α) (source : Nat) (g : Nat → Option α) : List Nat → Prop
+  | [] => True
+  | e :: rest =>
+    Wit I source g rest ∧ e ∈ I.incident (endV I source rest) ∧
+    (∃ x le st, replay I rest = some (x, le, st) ∧
+      ∃ gw, g (endV I source rest) = some gw ∧ gw ≤ x) ∧
+    I.keyV e ∉ verts I source rest
+
+theorem Wit.mono {I : Inst α} {source : Nat} {g g' : Nat → Option α}
+    (hle : SearchOpt.LabelsLe g g') : ∀ {p : List Nat}, Wit I source g p → Wit I source g' p
+  | [], _ => trivial
+  | e :: rest, h => by
+    obtain ⟨h1, h2, ⟨x, le, st, h3, gw, h4, h5⟩, h6⟩ := h
+    obtain ⟨gw', h7, h8⟩ := hle _ _ h4
+    exact ⟨Wit.mono hle h1, h2, ⟨x, le, st, h3, gw', h7, le_trans h8 h5⟩, h6⟩
+
+/-- the replay of a longer path costs strictly more -/
+theorem replay_cons {I : Inst α} (hI : WF I) {e : Nat} {rest : List Nat} {x : α} {le : Option Nat}
+    {st : List α} (h : replay I (e :: rest) = some (x, le, st)) :
+    ∃ x0 le0 st0, replay I rest = some (x0, le0, st0) ∧ x0 < x := by
+  simp only [replay] at h
+  cases hr : replay I rest with
+  | none => simp [hr] at h
+  | some r =>
+    obtain ⟨x0, le0, st0⟩ := r
+    simp only [hr] at h
+    cases ht : I.trav e le0 st0 with
+    | error k => simp [ht] at h
+    | ok r2 =>
+      obtain ⟨ac, tc, st'⟩ := r2
+      simp only [ht, Option.some.injEq, Prod.mk.injEq] at h
+      have := hI.cost_pos _ _ _ _ _ _ ht
+      exact ⟨x0, le0, st0, rfl, by rw [← h.1]; linarith⟩
+
+/-- every vertex a witness visits carries a label of at most the witness's cost, given that its
+end vertex does -/
+theorem wit_verts_le {I : Inst α} (hI : WF I) {source : Nat} {g : Nat → Option α} :
+    ∀ {p : List Nat} {x : α} {le : Option Nat} {st : List α}, Wit I source g p →
+      replay I p = some (x, le, st) → (∃ gw, g (endV I source p) = some gw ∧ gw ≤ x) →
+      ∀ w ∈ verts I source p, ∃ gw, g w = some gw ∧ gw ≤ x
+  | [], x, le, st, _, _, hend, w, hw => by
+    simp only [verts, List.mem_singleton] at hw
+    subst hw
+    exact hend
+  | e :: rest, x, le, st, hwit, hrep, hend, w, hw => by
+    simp only [verts, List.mem_cons] at hw
+    rcases hw with rfl | hw
+    · exact hend
+    · obtain ⟨h1, _, ⟨x0, le0, st0, h3, hgw⟩, _⟩ := hwit
+      obtain ⟨x0', le0', st0', h3', hlt⟩ := replay_cons hI hrep
+      rw [h3] at h3'
+      simp only [Option.some.injEq, Prod.mk.injEq] at h3'
+      obtain ⟨rfl, _, _⟩ := h3'
+      obtain ⟨gw, h4, h5⟩ := wit_verts_le hI h1 h3 hgw w hw
+      exact ⟨gw, h4, le_trans h5 (le_of_lt hlt)⟩
+
+theorem Wit.nodup {I : Inst α} {source : Nat} {g : Nat → Option α} :
+    ∀ {p : List Nat}, Wit I source g p → (verts I source p).Nodup
+  | [], _ => by simp [verts]
+  | e :: rest, h => by
+    simp only [verts]
+    exact List.nodup_cons.2 ⟨h.2.2.2, Wit.nodup h.1⟩
+
+theorem verts_length (I : Inst α) (source : Nat) :
+    ∀ p : List Nat, (verts I source p).length = p.length + 1
+  | [] => rfl
+  | e :: rest => by simp [verts, verts_length I source rest]
+
+theorem verts_lt {I : Inst α} {source nV : Nat} (hsrc : source < nV) (hkey : ∀ e, I.keyV e < nV) :
+    ∀ p : List Nat, ∀ w ∈ verts I source p, w < nV
+  | [], w, hw => by simp only [verts, List.mem_singleton] at hw; subst hw; exact hsrc
+  | e :: rest, w, hw => by
+    simp only [verts, List.mem_cons] at hw
+    rcases hw with rfl | hw
+    · exact hkey e
+    · exact verts_lt hsrc hkey rest w hw
+
+/-- a witness over the vertices `< nV` has fewer than `nV` edges -/
+theorem Wit.length_lt {I : Inst α} {source nV : Nat} (hsrc : source < nV)
+    (hkey : ∀ e, I.keyV e < nV) {g : Nat → Option α} {p : List Nat} (h : Wit I source g p) :
+    p.length < nV := by
+  have hsub : verts I source p ⊆ List.range nV := by
+    intro w hw
+    rw [List.mem_range]
+    exact verts_lt hsrc hkey p w hw
+  have := ((Wit.nodup h).subperm hsub).length_le
+  rw [verts_length, List.length_range] at this
+  omega
+
+/-! #### The finite set of candidate paths -/
+
+/-- all walks of exactly `n` edges from the source along the incident lists (reversed) -/
+def walksLen (I : Inst α) (source : Nat) : Nat → List (List Nat)
+  | 0 => [[]]
+  | n + 1 => (walksLen I source n).flatMap
+      (fun p => (I.incident (endV I source p)).map (fun e => e :: p))
+
+/-- all walks of fewer than `N` edges -/
+def walks (I : Inst α) (source N : Nat) : List (List Nat) :=
+  (List.range N).flatMap (walksLen I source)
+
+theorem Wit.mem_walksLen {I : Inst α} {source : Nat} {g : Nat → Option α} :
+    ∀ {p : List Nat}, Wit I source g p → p ∈ walksLen I source p.length
+  | [], _ => by simp [walksLen]
+  | e :: rest, h => by
+    simp only [List.length_cons, walksLen, List.mem_flatMap, List.mem_map]
+    exact ⟨rest, Wit.mem_walksLen h.1, e, h.2.1, rfl⟩
+
+theorem Wit.mem_walks {I : Inst α} {source nV : Nat} (hsrc : source < nV)
+    (hkey : ∀ e, I.keyV e < nV) {g : Nat → Option α} {p : List Nat} (h : Wit I source g p) :
+    p ∈ walks I source nV := by
+  simp only [walks, List.mem_flatMap, List.mem_range]
+  exact ⟨p.length, Wit.length_lt hsrc hkey h, Wit.mem_walksLen h⟩
+
+/-! #### The measure -/
+
+/-- the replay of `p` is still cheaper than the label of its end vertex (or that vertex has no
+label yet) -/
+def Below (I : Inst α) (source : Nat) (g : Nat → Option α) (p : List Nat) : Prop :=
+  ∃ x le st, replay I p = some (x, le, st) ∧ ∀ y, g (endV I source p) = some y → x < y
+
+open Classical in
+/-- number of candidate paths that are still below the label of their end vertex -/
+noncomputable def phi (I : Inst α) (source : Nat) (W : List (List Nat)) (g : Nat → Option α) :
+    Nat :=
+  W.countP (fun p => decide (Below I source g p))
+
+theorem Below.mono {I : Inst α} {source : Nat} {g g' : Nat → Option α}
+    (hle : SearchOpt.LabelsLe g g') {p : List Nat} (h : Below I source g' p) :
+    Below I source g p := by
+  obtain ⟨x, le, st, h1, h2⟩ := h
+  refine ⟨x, le, st, h1, fun y hy => ?_⟩
+  obtain ⟨y', h3, h4⟩ := hle _ _ hy
+  exact lt_of_lt_of_le (h2 y' h3) h4
+
+theorem countP_succ_le {β : Type} {q q' : β → Bool} (hmono : ∀ a, q' a = true → q a = true) :
+    ∀ {W : List β} {p : β}, p ∈ W → q p = true → q' p = false →
+      W.countP q' + 1 ≤ W.countP q
+  | a :: W', p, hp, h1, h2 => by
+    rcases List.mem_cons.1 hp with rfl | hp'
+    · rw [List.countP_cons_of_pos h1, List.countP_cons_of_neg (by simp [h2])]
+      exact Nat.succ_le_succ (List.countP_mono_left (fun x _ hx => hmono x hx))
+    · have ih := countP_succ_le hmono hp' h1 h2
+      rw [List.countP_cons, List.countP_cons]
+      have : (if q' a = true then 1 else 0) ≤ (if q a = true then 1 else 0) := by
+        by_cases ha : q' a = true
+        · simp [ha, hmono a ha]
+        · simp only [ha, Bool.false_eq_true, if_false]; exact Nat.zero_le _
+      omega
+
+theorem phi_mono {I : Inst α} {source : Nat} (W : List (List Nat)) {g g' : Nat → Option α}
+    (hle : SearchOpt.LabelsLe g g') : phi I source W g' ≤ phi I source W g := by
+  classical
+  unfold phi
+  apply List.countP_mono_left
+  intro p _ hp
+  simp only [decide_eq_true_eq] at hp ⊢
+  exact hp.mono hle
+
+theorem phi_strict {I : Inst α} {source : Nat} {W : List (List Nat)} {g g' : Nat → Option α}
+    (hle : SearchOpt.LabelsLe g g') {p : List Nat} (hp : p ∈ W) (h1 : Below I source g p)
+    (h2 : ¬ Below I source g' p) : phi I source W g' + 1 ≤ phi I source W g := by
+  classical
+  unfold phi
+  apply countP_succ_le _ hp
+  · simpa using h1
+  · simpa using h2
+  · intro a ha
+    simp only [decide_eq_true_eq] at ha ⊢
+    exact ha.mono hle
+
+/-! #### The invariant -/
+
+/-- every labelled vertex with a tree entry has a witness whose replay is its label, its entry's
+edge and its entry's state -/
+def PathInv (I : Inst α) (source : Nat) (s : SState α) : Prop :=
+  ∀ v b x, s.sol v = some b → s.g v = some x →
+    ∃ p, endV I source p = v ∧ Wit I source s.g p ∧ replay I p = some (x, some b.edge, b.state)
+
+/-- inside the `for` loop over the incident edges of the popped vertex `u` -/
+structure PMid (I : Inst α) (source : Nat) (u : Nat) (gu : α) (lastEdge : Option Nat)
+    (st : List α) (s : SState α) : Prop where
+  inv : PathInv I source s
+  label : s.g u = some gu
+  path : ∃ pu, endV I source pu = u ∧ Wit I source s.g pu ∧ replay I pu = some (gu, lastEdge, st)
+
+theorem pushIncrease_length_le (q : List (Nat × α)) (v : Nat) (f : α) :
+    (pushIncrease q v f).length ≤ q.length + 1 := by
+  unfold pushIncrease
+  split
+  · simp
+  · split
+    · simp
+    · exact Nat.le_succ _
+
+theorem labelsLe_upd {g : Nat → Option α} {k : Nat} {t : α}
+    (h : improves t (g k) = true) : SearchOpt.LabelsLe g (upd g k t) := by
+  intro v x hx
+  by_cases hv : v = k
+  · subst hv
+    rw [hx, SearchTree.improves_some] at h
+    exact ⟨t, SearchTree.upd_same _ _ _, le_of_lt h⟩
+  · exact ⟨x, by rw [SearchTree.upd_other _ _ _ hv]; exact hx, le_refl _⟩
+
+/-- one relaxation keeps the invariant, only lowers labels, and does not raise the measure -/
+theorem relax_general {I : Inst α} (hI : WF I) {source nV : Nat} (hsrc : source < nV)
+    (hkey : ∀ e, I.keyV e < nV) {hasTarget : Bool} {u : Nat} {gu : α} {lastEdge : Option Nat}
+    {st : List α} {s s' : SState α} {e : Nat} (hm : PMid I source u gu lastEdge st s)
+    (he : e ∈ I.incident u) (h : relax I hasTarget lastEdge st s e = .ok s') :
+    PMid I source u gu lastEdge st s' ∧
+    phi I source (walks I source nV) s'.g + s'.queue.length
+      ≤ phi I source (walks I source nV) s.g + s.queue.length := by
+  have hterm : I.termV e = u := hI.incident_term u e he
+  unfold relax at h
+  split at h
+  · cases h
+  · cases h; exact ⟨hm, le_refl _⟩
+  · split at h
+    · cases h
+    · rename_i ac tc st' htrav
+      have hc : 0 < ac + tc := hI.cost_pos _ _ _ _ _ _ htrav
+      split at h
+      · cases h; exact ⟨hm, le_refl _⟩
+      · rename_i gt hgt
+        simp only at h
+        split at h
+        · rename_i himp
+          split at h
+          · cases h
+          · rename_i hv hh
+            cases h
+            -- the improving relaxation
+            have hgu : gt = gu := by
+              rw [hterm, hm.label] at hgt
+              exact (Option.some.inj hgt).symm
+            subst hgu
+            obtain ⟨pu, hpu1, hpu2, hpu3⟩ := hm.path
+            have hku : I.keyV e ≠ u := by
+              intro hk
+              rw [hk, hm.label, SearchTree.improves_some] at himp
+              linarith
+            have hle := labelsLe_upd himp
+            -- the key vertex is not on the path to `u`
+            have hnot : I.keyV e ∉ verts I source pu := by
+              intro hmem
+              obtain ⟨gw, h1, h2⟩ := wit_verts_le hI hpu2 hpu3
+                ⟨gt, by rw [hpu1]; exact hm.label, le_refl _⟩ _ hmem
+              rw [h1, SearchTree.improves_some] at himp
+              linarith
+            have hwit' : Wit I source (upd s.g (I.keyV e) (gt + (ac + tc))) (e :: pu) := by
+              refine ⟨hpu2.mono hle, by rw [hpu1]; exact he, ⟨gt, lastEdge, st, hpu3, gt, ?_,
+                le_refl _⟩, hnot⟩
+              rw [hpu1, SearchTree.upd_other _ _ _ hku.symm]
+              exact hm.label
+            have hrep' : replay I (e :: pu) = some (gt + (ac + tc), some e, st') := by
+              simp only [replay, hpu3, htrav]
+            refine ⟨⟨?_, ?_, ?_⟩, ?_⟩
+            · -- PathInv
+              intro v b x hb hx
+              change upd s.sol (I.keyV e) _ v = some b at hb
+              change upd s.g (I.keyV e) _ v = some x at hx
+              by_cases hvk : v = I.keyV e
+              · subst hvk
+                rw [SearchTree.upd_same] at hb hx
+                cases hb
+                cases hx
+                exact ⟨e :: pu, rfl, hwit', hrep'⟩
+              · rw [SearchTree.upd_other _ _ _ hvk] at hb hx
+                obtain ⟨p, h1, h2, h3⟩ := hm.inv v b x hb hx
+                exact ⟨p, h1, h2.mono hle, h3⟩
+            · show upd s.g (I.keyV e) _ u = some gt
+              rw [SearchTree.upd_other _ _ _ hku.symm]
+              exact hm.label
+            · exact ⟨pu, hpu1, hpu2.mono hle, hpu3⟩
+            · -- the measure
+              have hbelow : Below I source s.g (e :: pu) := by
+                refine ⟨_, _, _, hrep', fun y hy => ?_⟩
+                change s.g (I.keyV e) = some y at hy
+                rw [hy, SearchTree.improves_some] at himp
+                exact himp
+              have hnbelow : ¬ Below I source (upd s.g (I.keyV e) (gt + (ac + tc))) (e :: pu) := by
+                rintro ⟨x, le, st2, h1, h2⟩
+                rw [hrep'] at h1
+                simp only [Option.some.injEq, Prod.mk.injEq] at h1
+                have := h2 (gt + (ac + tc)) (by
+                  show upd s.g (I.keyV e) _ (I.keyV e) = _
+                  exact SearchTree.upd_same _ _ _)
+                rw [← h1.1] at this
+                exact lt_irrefl _ this
+              have hstrict := phi_strict (W := walks I source nV) hle
+                (Wit.mem_walks hsrc hkey hwit') hbelow hnbelow
+              have hlen := pushIncrease_length_le s.queue (I.keyV e) (gt + (ac + tc) + hv)
+              show phi I source (walks I source nV) (upd s.g (I.keyV e) _)
+                  + (pushIncrease s.queue (I.keyV e) _).length ≤ _
+              omega
+        · cases h; exact ⟨hm, le_refl _⟩
+
+/-- the whole `for` loop -/
+theorem relaxAll_general {I : Inst α} (hI : WF I) {source nV : Nat} (hsrc : source < nV)
+    (hkey : ∀ e, I.keyV e < nV) {hasTarget : Bool} {u : Nat} {gu : α} {lastEdge : Option Nat}
+    {st : List α} :
+    ∀ (es : List Nat) (s s' : SState α), (∀ e ∈ es, e ∈ I.incident u) →
+      PMid I source u gu lastEdge st s → relaxAll I hasTarget lastEdge st es s = .ok s' →
+      PMid I source u gu lastEdge st s' ∧
+      phi I source (walks I source nV) s'.g + s'.queue.length
+        ≤ phi I source (walks I source nV) s.g + s.queue.length
+  | [], s, s', _, hm, h => by
+    simp only [relaxAll] at h
+    cases h
+    exact ⟨hm, le_refl _⟩
+  | e :: es, s, s', hes, hm, h => by
+    simp only [relaxAll] at h
+    split at h
+    · cases h
+    · rename_i s1 h1
+      obtain ⟨hm1, hle1⟩ := relax_general hI hsrc hkey hm (hes e List.mem_cons_self) h1
+      obtain ⟨hm2, hle2⟩ := relaxAll_general hI hsrc hkey es s1 s'
+        (fun e' he' => hes e' (List.mem_cons_of_mem _ he')) hm1 h
+      exact ⟨hm2, le_trans hle2 hle1⟩
+
+/-- the pop removes a queue entry -/
+theorem popped_length_lt {s : SState α} {v : Nat} (hpop : popOk s.queue v = true) :
+    (popped s v).queue.length + 1 ≤ s.queue.length := by
+  obtain ⟨p, hp, hpv⟩ := SearchTree.popOk_mem hpop
+  have : (s.queue.filter (fun p => !(p.1 == v))).length < s.queue.length := by
+    rw [List.length_filter_lt_length_iff_exists]
+    exact ⟨p, hp, by simp [hpv]⟩
+  simp only [popped]
+  omega
+
+/-- one turn keeps the invariants and lowers the measure -/
+theorem turn_general {I : Inst α} (hI : WF I) {source nV : Nat} (hsrc : source < nV)
+    (hkey : ∀ e, I.keyV e < nV) {target : Option Nat} {s s' : SState α} {v : Nat}
+    (hinv : TreeInv I source s) (hp : PathInv I source s)
+    (ht : SearchLimits.Turn I source target s v s') :
+    TreeInv I source s' ∧ PathInv I source s' ∧
+    phi I source (walks I source nV) s'.g + s'.queue.length + 1
+      ≤ phi I source (walks I source nV) s.g + s.queue.length := by
+  obtain ⟨_, _, hpop, _, lastEdge, st, s2, hcur, hrel, rfl⟩ := ht
+  have hinv2 : TreeInv I source s2 :=
+    SearchTree.relaxAll_incident_treeInv hI v (hinv.pop v) hrel
+  obtain ⟨q, hq, hqv⟩ := SearchTree.popOk_mem hpop
+  obtain ⟨gv, hgv⟩ := Option.isSome_iff_exists.1 (hinv.queue_labelled q hq)
+  rw [hqv] at hgv
+  -- the popped vertex has a witness
+  have hmid : PMid I source v gv lastEdge st (popped s v) := by
+    refine ⟨hp, hgv, ?_⟩
+    unfold curOf at hcur
+    by_cases hvs : v = source
+    · subst hvs
+      simp only [if_true, Option.some.injEq, Prod.mk.injEq] at hcur
+      obtain ⟨rfl, rfl⟩ := hcur
+      have : gv = 0 := by
+        have := hinv.g_source
+        rw [hgv] at this
+        exact Option.some.inj this
+      subst this
+      exact ⟨[], rfl, trivial, rfl⟩
+    · simp only [hvs, if_false] at hcur
+      cases hb : s.sol v with
+      | none => simp [hb] at hcur
+      | some b =>
+        simp only [hb, Option.some.injEq, Prod.mk.injEq] at hcur
+        obtain ⟨rfl, rfl⟩ := hcur
+        exact hp v b gv hb hgv
+  obtain ⟨hm2, hle⟩ := relaxAll_general hI hsrc hkey (I.incident v) (popped s v) s2
+    (fun e he => he) hmid hrel
+  have hpl := popped_length_lt hpop
+  refine ⟨hinv2.bump, hm2.inv, ?_⟩
+  have : (popped s v).g = s.g := rfl
+  rw [this] at hle
+  show phi I source (walks I source nV) s2.g + s2.queue.length + 1 ≤ _
+  omega
+
+/-- along a run: the number of turns plus the measure at the head reached is at most the measure
+at the start -/
+theorem reach_general {I : Inst α} (hI : WF I) {source nV : Nat} (hsrc : source < nV)
+    (hkey : ∀ e, I.keyV e < nV) {target : Option Nat} {pre : List Nat} {s h : SState α}
+    (hr : Reach I source target pre s h) (hinv : TreeInv I source s) (hp : PathInv I source s) :
+    pre.length + (phi I source (walks I source nV) h.g + h.queue.length)
+      ≤ phi I source (walks I source nV) s.g + s.queue.length := by
+  induction hr with
+  | here s => simp
+  | turn ht _ ih =>
+    obtain ⟨hinv1, hp1, hle1⟩ := turn_general hI hsrc hkey hinv hp ht
+    have := ih hinv1 hp1
+    simp only [List.length_cons]
+    omega
+
+/-- **the bound**: no run of a well-formed instance over the vertices `< nV` — any estimate, any
+schedule — performs more than `|walks| + 1` turns -/
+theorem general_bound {I : Inst α} (hI : WF I) {source nV : Nat} (hsrc : source < nV)
+    (hkey : ∀ e, I.keyV e < nV) {target : Option Nat} (f0 : α) {pre : List Nat} {h : SState α}
+    (hr : Reach I source target pre (initState source f0) h) :
+    pre.length ≤ (walks I source nV).length + 1 := by
+  have hp : PathInv I source (initState source f0) := by
+    intro v b x hb _
+    simp [initState] at hb
+  have := reach_general hI hsrc hkey hr (SearchTree.initState_treeInv I source f0) hp
+  have hphi : phi I source (walks I source nV) (initState source f0).g
+      ≤ (walks I source nV).length := by
+    classical
+    unfold phi
+    exact List.countP_le_length
+  have hq : (initState source f0).queue.length = 1 := by simp [initState]
+  omega
+
+/-- **(c) TERMINATION, general A\*** (re-opening allowed): a well-formed instance over the vertices
+`< nV`, no hypothesis on the estimate.  With `N = |walks| + 1` (`walks`: the walks of fewer than `nV`
+edges from the source): (1) some schedule of at most `N + 1` pops has a final outcome; (2) every
+accepted, unfinished schedule has at most `N` pops and extends to one of at most `N + 1` pops with a
+final outcome. -/
+theorem terminates_general {I : Inst α} (hI : WF I) (hS : NoSchedErr I) {source nV : Nat}
+    (hsrc : source < nV) (hkey : ∀ e, I.keyV e < nV) (target : Option Nat) :
+    (∃ sched, sched.length ≤ (walks I source nV).length + 2 ∧
+      IsFinal (runAStar I source target sched)) ∧
+    ∀ pre, runAStar I source target pre = .error .scheduleExhausted →
+      pre.length ≤ (walks I source nV).length + 1 ∧
+      ∃ ext, (pre ++ ext).length ≤ (walks I source nV).length + 2 ∧
+        IsFinal (runAStar I source target (pre ++ ext)) :=
+  runAStar_final_of_bound hS (fun f0 _ _ _ hr => general_bound hI hsrc hkey f0 hr)
+
+/-- the same for `run_vertex_oriented` -/
+theorem route_search_terminates_general {I : Inst α} (hI : WF I) (hS : NoSchedErr I)
+    {source nV : Nat} (hsrc : source < nV) (hkey : ∀ e, I.keyV e < nV) (target : Option Nat) :
+    (∃ sched, sched.length ≤ (walks I source nV).length + 2 ∧
+      IsFinal (runVertexOriented I source target sched)) ∧
+    ∀ pre, runVertexOriented I source target pre = .error .scheduleExhausted →
+      pre.length ≤ (walks I source nV).length + 1 ∧
+      ∃ ext, (pre ++ ext).length ≤ (walks I source nV).length + 2 ∧
+        IsFinal (runVertexOriented I source target (pre ++ ext)) :=
+  runVertexOriented_final_of_bound hS (fun f0 _ _ _ hr => general_bound hI hsrc hkey f0 hr)
+
+/-- a returned result performed at most `|walks| + 1` expansions -/
+theorem iterations_le_general {I : Inst α} (hI : WF I) {source nV : Nat} (hsrc : source < nV)
+    (hkey : ∀ e, I.keyV e < nV) {target : Option Nat} {sched : List Nat} {s : SState α}
+    (hrun : runAStar I source target sched = .ok s) :
+    s.iters ≤ (walks I source nV).length + 1 := by
+  rcases SearchLimits.runAStar_ok_iff.1 hrun with ⟨_, rfl⟩ | ⟨_, f0, _, hloop⟩
+  · exact Nat.zero_le _
+  · obtain ⟨pre, rest, h, _, hr, _, hfin⟩ := SearchLimits.runLoop_ok_reach sched _ s hloop
+    have h1 := hr.counters.1
+    have h2 := general_bound hI hsrc hkey f0 hr
+    rw [hfin.fields.2.2.2, h1]
+    simp only [initState]
+    omega
+
+/-- size of the candidate set: with at most `D` incident edges per vertex there are at most `D ^ n`
+walks of `n` edges -/
+theorem walksLen_length_le {I : Inst α} {D : Nat} (hD : ∀ v, (I.incident v).length ≤ D)
+    (source : Nat) : ∀ n, (walksLen I source n).length ≤ D ^ n
+  | 0 => by simp [walksLen]
+  | n + 1 => by
+    have ih := walksLen_length_le hD source n
+    have key : ∀ (l : List (List Nat)),
+        (l.flatMap (fun p => (I.incident (endV I source p)).map (fun e => e :: p))).length
+          ≤ l.length * D := by
+      intro l
+      induction l with
+      | nil => simp
+      | cons p l ihl =>
+        simp only [List.flatMap_cons, List.length_append, List.length_map, List.length_cons]
+        have := hD (endV I source p)
+        rw [Nat.succ_mul]
+        omega
+    calc (walksLen I source (n + 1)).length ≤ (walksLen I source n).length * D := key _
+      _ ≤ D ^ n * D := Nat.mul_le_mul_right D ih
+      _ = D ^ (n + 1) := (Nat.pow_succ ..).symm
+
+theorem walks_length_le {I : Inst α} {D : Nat} (hD : ∀ v, (I.incident v).length ≤ D)
+    (source : Nat) : ∀ N, (walks I source N).length ≤ ((List.range N).map (fun n => D ^ n)).sum
+  | 0 => by simp [walks]
+  | N + 1 => by
+    have ih := walks_length_le hD source N
+    have h1 := walksLen_length_le hD source N
+    simp only [walks, List.range_succ, List.flatMap_append, List.flatMap_cons, List.flatMap_nil,
+      List.append_nil, List.length_append, List.map_append, List.map_cons, List.map_nil,
+      List.sum_append, List.sum_cons, List.sum_nil, Nat.add_zero] at ih ⊢
+    omega
+
+end General
+
 /-! ### Configured instances (`Config.inst`, `Config.runVertex`) -/
 
 /-- the error kinds of the component models of a configuration (graph, frontier, access, cost,
@@ -917,6 +1445,48 @@ theorem config_tree_search_terminates (c : Config α) (hadj : c.AdjConsistent)
       simp only [add_zero]
       exact le_of_lt this
   exact config_terminates_of_heur c hadj hsrc hV hH
+
+/-- **termination of a configured search, general A\*** (any weight factor, any estimate; re-opening
+allowed): over the vertices `< n`, with `N = |walks c.inst source n| + 1` -/
+theorem config_terminates_general (c : Config α) (hadj : c.AdjConsistent) {source n : Nat}
+    (hsrc : source < n) (hV : c.VerticesBelow n) (target : Option Nat) :
+    (∃ sched, sched.length ≤ (walks c.inst source n).length + 2 ∧
+      Ended (c.runVertex source target sched)) ∧
+    (∀ pre, c.runVertex source target pre = .error .scheduleExhausted →
+      pre.length ≤ (walks c.inst source n).length + 1 ∧
+      ∃ ext, (pre ++ ext).length ≤ (walks c.inst source n).length + 2 ∧
+        Ended (c.runVertex source target (pre ++ ext))) ∧
+    ∀ sched r, c.runVertex source target sched = .ok r →
+      r.iterations ≤ (walks c.inst source n).length + 1 := by
+  have hI := c.inst_wf hadj
+  have hkey := config_keyV_lt c hV (Nat.lt_of_le_of_lt (Nat.zero_le _) hsrc)
+  obtain ⟨⟨sched, h1, h2⟩, h3⟩ :=
+    route_search_terminates_general hI (config_noSchedErr c) hsrc hkey target
+  refine ⟨⟨sched, h1, ?_⟩, ?_, ?_⟩
+  · exact (config_final_iff_ended c hadj _ _ _).1 ((runVertex_isFinal_iff c _ _ _).2 h2)
+  · intro pre hpre
+    obtain ⟨h4, ext, h5, h6⟩ := h3 pre ((runVertex_error_iff c _ _ _ _).1 hpre)
+    exact ⟨h4, ext, h5,
+      (config_final_iff_ended c hadj _ _ _).1 ((runVertex_isFinal_iff c _ _ _).2 h6)⟩
+  · intro sched r hr
+    unfold Config.runVertex at hr
+    split at hr
+    · cases hr
+    · rename_i res hres
+      cases hr
+      simp only
+      unfold runVertexOriented at hres
+      split at hres
+      · cases hres
+      · rename_i s hs
+        have hit := iterations_le_general hI hsrc hkey hs
+        cases target with
+        | none => cases hres; exact hit
+        | some t =>
+          simp only at hres
+          split at hres
+          · cases hres
+          · cases hres; exact hit
 
 /-! ### A\* with the configuration's own estimate, when it is consistent -/
 
